@@ -545,8 +545,13 @@ func GenHistory(t *rapid.T, hp *HistoryParams) Case {
 			c.Ops = append(c.Ops, ab("delwl"), ab("delete"), ab("delete"), Op{K: "deliver"}, Op{K: "deliver"}, Op{K: "deliver"},
 				ab("unbind"), ab("unbind"), Op{K: "resync"})
 		case 6: // pods of a deployment roll
-			c.Ops = append(c.Ops, ab("create"), ab("sched"), ab("delete"), Op{K: "deliver"}, Op{K: "deliver"}, ab("unbind"),
-				ab("create"), ab("sched"))
+			c.Ops = append(c.Ops, ab("create"), ab("sched"), ab("delete"), Op{K: "deliver"}, Op{K: "deliver"}, ab("unbind"), ab("create"))
+			if rapid.Bool().Draw(t, "resyncBetweenFilterAndBind") {
+				// the periodic resync runs between the replacement's filter and its bind, possibly before the pod cache has the pod
+				c.Ops = append(c.Ops, ab("filter"), Op{K: "resync"}, Op{K: "synclister", A: 2}, ab("bind"))
+			} else {
+				c.Ops = append(c.Ops, ab("sched"))
+			}
 		}
 	}
 	if hp.EndQuiesce {
